@@ -104,9 +104,9 @@ def scenarios(ctx: Ctx, backend: str) -> List[Scenario]:
                                                                    inv(["-r", "-d", "/data/b.root", "-o", "/results/o.root"], step)], **base))
     if backend == "atlas":
         S.append(Scenario(backend, "calib_cache_present", [inv([])], calib_cache=True, **base))
+    S.append(Scenario(backend, "paths_with_spaces", [inv(["-c"]), inv(["-r", "-d", "/data/my file.root"]),
+                                                    inv(["-r", "-o", "/results/out dir"], mkdirs=["/results/out dir"])], **base))
     if not ctx.quick:
-        S.append(Scenario(backend, "paths_with_spaces", [inv(["-c"]), inv(["-r", "-d", "/data/my file.root"]),
-                                                        inv(["-r", "-o", "/results/out dir"], mkdirs=["/results/out dir"])], **base))
         for step in STEPS[backend]:
             S.append(Scenario(backend, f"fail_{step}_with_o_dir", [inv(["-o", "/tmp/od"], step, mkdirs=["/tmp/od"], prepopulate="/tmp/od/ANALYSIS.root")], **base))
     return S
